@@ -448,12 +448,12 @@ def rule_R22(text, fired):
 
 
 # ---- R23: Iterator::any / all over a slice ---------------------------------------------------------
-R23_RX = re.compile(r'([\w\.]+)\.iter\(\)\.(any|all)\(\|(\w+)\|\s*')
+R23_RX = re.compile(r'([\w\.]+)\.iter\(\)\.(any|all|find)\(\|&?(\w+)\|\s*')
 
 
 def rule_R23(text, fired):
     """`E.iter().any(|x| BODY)` -> `{ let mut r_any = false; let mut i_x = 0; while i_x < E.len() { let x = &E[i_x]; if BODY { r_any = true;
-    break; } i_x += 1; } r_any }`, and `all` with `if !(BODY) { r_all = false; break; }`.  Trusted: Iterator::any / all over a slice
+    break; } i_x += 1; } r_any }`, `all` with `if !(BODY) { r_all = false; break; }`, `find(|&x| BODY)` with `r_find = Some(x)`.  Trusted: Iterator::any / all over a slice
     iterator evaluate the closure on the elements left to right and stop at the first hit."""
     while True:
         m = R23_RX.search(text)
@@ -474,6 +474,9 @@ def rule_R23(text, fired):
         if kind == 'any':
             rep = (f'{{ let mut r_any = false; let mut {idx}: usize = 0; while {idx} < {e}.len() {{ let {x} = &{e}[{idx}]; '
                    f'if {body} {{ r_any = true; break; }} {idx} += 1; }} r_any }}')
+        elif kind == 'find':
+            rep = (f'{{ let mut r_find = None; let mut {idx}: usize = 0; while {idx} < {e}.len() {{ let {x} = &{e}[{idx}]; '
+                   f'if {body} {{ r_find = Some({x}); break; }} {idx} += 1; }} r_find }}')
         else:
             rep = (f'{{ let mut r_all = true; let mut {idx}: usize = 0; while {idx} < {e}.len() {{ let {x} = &{e}[{idx}]; '
                    f'if !({body}) {{ r_all = false; break; }} {idx} += 1; }} r_all }}')
